@@ -56,6 +56,19 @@ void Context::copyVariableData(const Context &other) {
     }
 }
 
+bool Context::hasSameLayout(const Context &other) const {
+    if (variables.size() != other.variables.size() || arrays.size() != other.arrays.size()) return false;
+    for (size_t i = 0; i < variables.size(); i++) {
+        if (variables[i]->type != other.variables[i]->type) return false;
+        if (variables[i]->type == DataType::COMPOSITE
+            && !variables[i]->get<Composite>().hasSameLayout(other.variables[i]->get<Composite>())) return false;
+    }
+    for (size_t i = 0; i < arrays.size(); i++) {
+        if (!arrays[i]->hasSameLayout(*other.arrays[i])) return false;
+    }
+    return true;
+}
+
 Context::~Context() {
     for (ResolverCache *c : cache) {
         c->clear();
